@@ -1,2 +1,206 @@
-import FpgoVerif.Model.C05
-/-! Property theorems for C05 (none yet). -/
+import FpgoVerif.Proofs.C05Lists
+/-! Property theorems for C05 — set algebra laws of the implementation models the driver executes
+    (`Model/C05Impl.lean`), for ALL inputs (any element type with decidable equality, any length,
+    any arity), and agreement of the generic / interface{} models where they are separate.
+
+    Scope note: the property demands the laws for non-empty operands only; most of them are proved
+    here without that restriction (they also hold for empty operands of the *slice functions*); where
+    the code really deviates for empty operands (`IsSubset`, the `Stream`/`MapSet`/`StreamSet`
+    guards) the theorem carries the non-emptiness hypothesis and an `example` shows it satisfiable. -/
+namespace FpgoVerif.C05
+variable {α : Type} [DecidableEq α]
+
+/-! ## slices (fp.go) -/
+
+/-- Distinct = first occurrences, in the order of the operand (documented: `[8,2,8,0,2,0] ↦ [8,2,0]`). -/
+theorem C05_distinct_order (l : List α) : distinct l = Spec.dedup l := distinct_eq l
+
+theorem C05_distinct_mem (l : List α) (x : α) : x ∈ distinct l ↔ x ∈ l := by
+  rw [distinct_eq]; exact Spec.mem_dedup x l
+
+theorem C05_distinct_nodup (l : List α) : (distinct l).Nodup := by
+  rw [distinct_eq]; exact Spec.nodup_dedup l
+
+example : distinct [8, 2, 8, 0, 2, 0] = [8, 2, 0] := by decide
+
+/-- Intersection (any arity ≥ 1): the first occurrences of the items of the first operand that occur
+    in every other operand, in the order of the first operand. -/
+theorem C05_intersection_order (a : List α) (rest : List (List α)) :
+    intersection (some (a :: rest)) =
+      .ok ((Spec.dedup a).filter (fun x => rest.all (fun l => decide (x ∈ l)))) := intersection_eq a rest
+
+/-- x ∈ Intersection as ↔ x is in all operands; the result has no duplicates. -/
+theorem C05_intersection_mem (as : List (List α)) (h : as ≠ []) :
+    ∃ r, intersection (some as) = .ok r ∧ r.Nodup ∧ ∀ x, x ∈ r ↔ ∀ a ∈ as, x ∈ a := by
+  cases as with
+  | nil => exact absurd rfl h
+  | cons a rest =>
+    refine ⟨_, intersection_eq a rest, ?_, ?_⟩
+    · exact List.Nodup.sublist List.filter_sublist (Spec.nodup_dedup a)
+    · intro x
+      simp only [List.mem_filter, Spec.mem_dedup, List.all_eq_true, decide_eq_true_eq, List.mem_cons,
+        forall_eq_or_imp]
+
+example : ([[1, 2, 1, 3], [3, 1], [1, 1, 3, 4]] : List (List Nat)) ≠ [] ∧
+    intersection (some [[1, 2, 1, 3], [3, 1], [1, 1, 3, 4]]) = .ok [1, 3] := by decide
+
+/-- Difference (any arity ≥ 1): first occurrences of the items of the first operand that occur in
+    none of the others, in the order of the first operand. -/
+theorem C05_difference_order (a : List α) (rest : List (List α)) :
+    difference (some (a :: rest)) =
+      .ok ((Spec.dedup a).filter (fun x => rest.all (fun l => decide (x ∉ l)))) := difference_eq a rest
+
+theorem C05_difference_mem (a : List α) (rest : List (List α)) :
+    ∃ r, difference (some (a :: rest)) = .ok r ∧ r.Nodup ∧ ∀ x, x ∈ r ↔ x ∈ a ∧ ∀ b ∈ rest, x ∉ b := by
+  refine ⟨_, difference_eq a rest, ?_, ?_⟩
+  · exact List.Nodup.sublist List.filter_sublist (Spec.nodup_dedup a)
+  · intro x
+    simp only [List.mem_filter, Spec.mem_dedup, List.all_eq_true, decide_eq_true_eq]
+
+example : difference (some [[1, 2, 1, 3, 5], [3], [2, 2]]) = .ok [1, 5] := by decide
+
+/-- x ∈ Union as ↔ x is in some operand (any arity, incl. 0). -/
+theorem C05_union_mem (as : List (List α)) (x : α) : x ∈ union as ↔ ∃ a ∈ as, x ∈ a := by
+  unfold union; rw [union_outer_mem]; simp [mkeys]
+
+theorem C05_union_nodup (as : List (List α)) : (union as).Nodup := by
+  unfold union; exact union_outer_nodup as [] (by simp [mkeys])
+
+/-- Minus keeps the items of the first operand that are not in the second — in order, duplicates kept. -/
+theorem C05_minus_order (a b : List α) : minus a b = a.filter (fun x => decide (x ∉ b)) := minus_eq a b
+
+theorem C05_minus_mem (a b : List α) (x : α) : x ∈ minus a b ↔ x ∈ a ∧ x ∉ b := by
+  rw [minus_eq]; simp
+
+/-- IsSubset(A,B) ↔ every element of A occurs in B — for non-empty operands (the code answers
+    `false` as soon as one operand is empty). -/
+theorem C05_isSubset_iff (a b : List α) (ha : a ≠ []) (hb : b ≠ []) :
+    isSubset a b = true ↔ ∀ x ∈ a, x ∈ b := by
+  have ha' : ¬ a.length = 0 := fun h => ha (List.length_eq_zero_iff.1 h)
+  have hb' : ¬ b.length = 0 := fun h => hb (List.length_eq_zero_iff.1 h)
+  simp [isSubset, ha', hb', isSubsetLoop_iff]
+
+theorem C05_isSuperset_iff (a b : List α) (ha : a ≠ []) (hb : b ≠ []) :
+    isSuperset a b = true ↔ ∀ x ∈ b, x ∈ a := C05_isSubset_iff b a hb ha
+
+example : ([1, 1, 2] : List Nat) ≠ [] ∧ ([2, 3, 1] : List Nat) ≠ [] ∧ isSubset [1, 1, 2] [2, 3, 1] = true ∧
+    isSubset [1, 4] [2, 3, 1] = false := by decide
+
+/-- outside the demanded scope the code answers `false` (so `[] ⊆ B` is *not* reported) -/
+theorem C05_isSubset_empty (a b : List α) (h : a = [] ∨ b = []) : isSubset a b = false := by
+  rcases h with h | h <;> simp [isSubset, h]
+
+/-- derived law: A = (A ∖ B) ∪ (A ∩ B) as sets -/
+theorem C05_partition_law (a b : List α) (x : α) :
+    x ∈ a ↔ x ∈ minus a b ∨ ∃ r, intersection (some [a, b]) = .ok r ∧ x ∈ r := by
+  rw [C05_minus_mem, intersection_eq]
+  constructor
+  · intro hx
+    by_cases hb : x ∈ b
+    · exact Or.inr ⟨_, rfl, by simp [Spec.mem_dedup, hx, hb]⟩
+    · exact Or.inl ⟨hx, hb⟩
+  · rintro (h | ⟨r, hr, hx⟩)
+    · exact h.1
+    · cases hr; simp [Spec.mem_dedup] at hx; exact hx.1
+
+/-- derived law: A ⊆ B ↔ A ∖ B = ∅ (non-empty operands) -/
+theorem C05_subset_iff_empty_difference (a b : List α) (ha : a ≠ []) (hb : b ≠ []) :
+    isSubset a b = true ↔ difference (some [a, b]) = .ok [] := by
+  rw [C05_isSubset_iff a b ha hb, difference_eq]
+  constructor
+  · intro h
+    congr 1
+    apply List.filter_eq_nil_iff.2
+    intro x hx
+    have := h x ((Spec.mem_dedup x a).1 hx)
+    simp [this]
+  · intro h x hx
+    have h' : (Spec.dedup a).filter (fun x => [b].all (fun l => decide (x ∉ l))) = [] := by
+      injection h
+    have := List.filter_eq_nil_iff.1 h' x ((Spec.mem_dedup x a).2 hx)
+    simpa using this
+
+/-! ## Stream methods -/
+
+/-- Stream.Intersection for a non-empty argument -/
+theorem C05_stream_intersection (s i : List α) (hi : i ≠ []) :
+    Stream.intersection s (some i) = (Spec.dedup s).filter (fun x => decide (x ∈ i)) ∧
+    (Stream.intersection s (some i)).Nodup ∧
+    ∀ x, x ∈ Stream.intersection s (some i) ↔ x ∈ s ∧ x ∈ i := by
+  have hi' : ¬ i.length = 0 := fun h => hi (List.length_eq_zero_iff.1 h)
+  have h := intersection_eq s [i]
+  simp only [intersection] at h
+  injection h with h
+  have e : Stream.intersection s (some i) = (Spec.dedup s).filter (fun x => decide (x ∈ i)) := by
+    simp only [Stream.intersection, hi', beq_iff_eq, if_false]
+    rw [show (1 : Nat) = [i].length from rfl, h]
+    apply List.filter_congr; intro x _; simp
+  refine ⟨e, ?_, ?_⟩
+  · rw [e]; exact List.Nodup.sublist List.filter_sublist (Spec.nodup_dedup s)
+  · intro x; rw [e]; simp [Spec.mem_dedup]
+
+example : ([2, 1] : List Nat) ≠ [] ∧ Stream.intersection [1, 3, 1, 2] (some [2, 1]) = [1, 2] := by decide
+
+/-- Stream.Minus / RemoveItem (any argument; a nil or empty argument returns the receiver) -/
+theorem C05_stream_minus (s : List α) (i : Option (List α)) (x : α) :
+    x ∈ Stream.minus s i ↔ x ∈ s ∧ x ∉ i.getD [] := by
+  cases i with
+  | none => simp [Stream.minus]
+  | some i =>
+    simp only [Stream.minus, Option.getD_some]
+    split
+    · rename_i h
+      have : i = [] := List.length_eq_zero_iff.1 (by simpa using h)
+      simp [this]
+    · exact C05_minus_mem s i x
+
+theorem C05_stream_removeItem (s input : List α) (x : α) :
+    x ∈ Stream.removeItem s input ↔ x ∈ s ∧ x ∉ input := by
+  unfold Stream.removeItem
+  split
+  · exact C05_minus_mem s input x
+  · rename_i h
+    have : input = [] := List.length_eq_zero_iff.1 (by omega)
+    simp [this]
+
+theorem C05_stream_isSubset (s i : List α) (hs : s ≠ []) (hi : i ≠ []) :
+    Stream.isSubset s (some i) = true ↔ ∀ x ∈ s, x ∈ i := by
+  have hi' : ¬ i.length = 0 := fun h => hi (List.length_eq_zero_iff.1 h)
+  simp only [Stream.isSubset, beq_iff_eq, hi', if_false]
+  exact C05_isSubset_iff s i hs hi
+
+theorem C05_stream_isSuperset (s i : List α) (hs : s ≠ []) (hi : i ≠ []) :
+    Stream.isSuperset s (some i) = true ↔ ∀ x ∈ i, x ∈ s := by
+  have hi' : ¬ i.length = 0 := fun h => hi (List.length_eq_zero_iff.1 h)
+  simp only [Stream.isSuperset, beq_iff_eq, hi', if_false]
+  exact C05_isSuperset_iff s i hs hi
+
+example : ([1, 2] : List Nat) ≠ [] ∧ ([2] : List Nat) ≠ [] ∧ Stream.isSuperset [1, 2] (some [2]) = true ∧
+    Stream.isSubset [1, 2] (some [2]) = false := by decide
+
+theorem C05_stream_distinct (s : List α) :
+    Stream.distinct s = Spec.dedup s ∧ (Stream.distinct s).Nodup ∧ ∀ x, x ∈ Stream.distinct s ↔ x ∈ s :=
+  ⟨distinct_eq s, C05_distinct_nodup s, C05_distinct_mem s⟩
+
+theorem C05_stream_contains (s : List α) (x : α) : Stream.contains s x = true ↔ x ∈ s := existsIn_iff x s
+
+/-! ## twins with separate models -/
+
+theorem shiftDown_eq {β : Type} (s : List β) (n : Nat) : I.shiftDown s n = s.take n ++ s.drop (n + 1) := by
+  induction s generalizing n with
+  | nil => simp [I.shiftDown]
+  | cons x t ih =>
+    cases n with
+    | zero => simp [I.shiftDown]
+    | succ n => simp [I.shiftDown, ih]
+
+/-- `StreamDef.Remove` (fresh slice) and `StreamForInterfaceDef.Remove` (in-place shift) return the
+    same list for every receiver and every index (negative and out-of-range included). -/
+theorem C05_twin_streamRemove {β : Type} (s : List β) (index : Int) :
+    G.streamRemove s index = I.streamRemove s index := by
+  unfold G.streamRemove I.streamRemove
+  split
+  · rw [shiftDown_eq]
+  · rfl
+
+end FpgoVerif.C05
